@@ -14,7 +14,7 @@
    FIR and IIR designs) is a property of scipy.signal.firwin / iirdesign / filtfilt and is only
    probed numerically by the harness (evidence: design_probes_TESTS_ONLY). *)
 From Coq Require Import QArith ZArith List Bool Arith PrimFloat.
-From NT Require Import F2Z Close QC Sums TimeArray Filter FilterP.
+From NT Require Import F2Z Close QC Sums TimeArray Filter FilterP FilterFloat.
 Import ListNotations.
 Open Scope Q_scope.
 
@@ -193,6 +193,34 @@ Theorem C18_fir_lowpass_iff : forall Fs ub, 0 < Fs -> (Qltb (ub / (Fs / 2)) 1 = 
 Proof. exact fir_plan_stage_lp. Qed.
 Theorem C18_fir_highpass_iff : forall Fs lb, 0 < Fs -> (Qltb 0 (lb / (Fs / 2)) = true <-> 0 < lb).
 Proof. exact fir_plan_stage_hp. Qed.
+(* ub exactly at the Nyquist frequency is no upper edge.  The code computes the fraction of Nyquist as
+   ub / (Fs / 2.) and branches on ub_frac < 1 / ub_frac == 1: for ub = Fs / 2. the float64 quotient is EXACTLY
+   1.0 for every sampling rate whose half is finite and non-zero (x / x = 1 in IEEE binary64; proved through
+   Flocq's Bdiv_correct, so Coq's Reals axioms and the float specification axioms appear below), hence fir
+   plans the same stages and iir hands iirdesign the same specification as for ub = None. *)
+Theorem C18_ub_nyquist_frac_exact : forall Fs, 0 < Fs -> ub_frac Fs (Some (Fs / 2)) == 1.
+Proof. exact ub_nyquist_frac_exact. Qed.
+Theorem C18_ub_nyquist_frac_one_float : forall Fs m e, f2ze (half_f Fs) = Some (m, e) -> m <> 0%Z ->
+  ub_frac_f Fs (Some (half_f Fs)) = 1%float.
+Proof. exact ub_nyquist_frac_one. Qed.
+Print Assumptions C18_ub_nyquist_frac_one_float.
+Theorem C18_fir_plan_nyquist_is_none : forall Fs lb order n m e, f2ze (half_f Fs) = Some (m, e) -> m <> 0%Z ->
+  fir_plan_fl Fs lb (Some (half_f Fs)) order n = fir_plan_fl Fs lb None order n.
+Proof. exact fir_plan_nyquist_is_none. Qed.
+Theorem C18_iir_spec_nyquist_is_none : forall Fs lb m e, f2ze (half_f Fs) = Some (m, e) -> m <> 0%Z ->
+  iir_spec_fl Fs lb (Some (half_f Fs)) = iir_spec_fl Fs lb None.
+Proof. exact iir_spec_nyquist_is_none. Qed.
+(* the hypotheses are met by 49 Hz and by an interval of 0.72 s, for which the algebraically equal product
+   ub * (2. / Fs) is NOT 1.0 *)
+Example C18_nyquist_examples :
+  f2ze (half_f 49%float) = Some (6896136929411072%Z, (-48)%Z) /\
+  PrimFloat.eqb (PrimFloat.mul (half_f 49%float) (PrimFloat.div 2 49)) 1 = false /\
+  PrimFloat.eqb (PrimFloat.div (half_f 49%float) (half_f 49%float)) 1 = true /\
+  (let Fs := PrimFloat.div 1 0x1.70a3d70a3d70ap-1%float in
+   PrimFloat.eqb (PrimFloat.mul (half_f Fs) (PrimFloat.div 2 Fs)) 1 = false /\
+   PrimFloat.eqb (PrimFloat.div (half_f Fs) (half_f Fs)) 1 = true).
+Proof. exact nyquist_examples. Qed.
+
 (* spectral inversion: DC gain of the high-pass taps = 1 - DC gain of the low-pass taps
    (so the high-pass stage kills DC whenever firwin's taps sum to 1) *)
 Theorem C18_hp_taps_dc : forall ntaps b, (0 < ntaps)%nat ->
